@@ -234,10 +234,21 @@ theorem line_length_le (src : List Char) (k : Nat) (line : List Char)
         · have := ih x (by rw [hs]; simp); simp; omega
         · have := ih line (by rw [hs]; simp [hm]); simp; omega
 
-/-- A span whose ends are real positions, start not after end, renders with both renderers. -/
-theorem render_safe (src : List Char) (sp : Span) (hsize : src.length < sizeBound)
-    (hin : InText src sp) (hord : Ordered sp) :
-    renderErrOK src sp = true ∧ renderDiagOK src sp = true := by
+/-- `bl` gives plausible byte lengths: every rune of a line takes between 1 and 4 bytes (true of
+UTF-8 and of Go's decoding of invalid UTF-8, where an invalid byte becomes one U+FFFD). -/
+def ByteLens (bl : Nat → Nat) (src : List Char) : Prop :=
+  ∀ k line, (splitLines src)[k]? = some line → line.length ≤ bl k ∧ bl k ≤ 4 * line.length
+
+theorem byteLens_utf8 (src : List Char) : ByteLens (lineBytes src) src := by
+  intro k line h
+  simp only [lineBytes, h, Option.getD_some]
+  exact ⟨length_le_byteLen line, byteLen_le line⟩
+
+/-- A span whose ends are real positions, start not after end, renders with both renderers —
+whatever the encoding makes of the byte lengths of the lines. -/
+theorem render_safe_with (bl : Nat → Nat) (src : List Char) (sp : Span) (hbl : ByteLens bl src)
+    (hsize : src.length < sizeBound) (hin : InText src sp) (hord : Ordered sp) :
+    renderErrOK src sp = true ∧ renderDiagOKWith bl src sp = true := by
   obtain ⟨hi, hj, hs, he⟩ := hin
   unfold Ordered at hord
   obtain ⟨a1, a2, a3, line, a4, a5⟩ := locAt_facts src sp.start.idx hi
@@ -254,11 +265,10 @@ theorem render_safe (src : List Char) (sp : Span) (hsize : src.length < sizeBoun
     have := col_mono_same_line src sp.start.idx sp.stop.idx hord hj (by rw [← hs, ← he]; exact hl)
     rw [← hs, ← he] at this
     exact repeatSpanOK_of_le _ _ this (by omega)
-  have hmulti : multiLineOK src sp.start.line sp.start.col = true := by
-    unfold multiLineOK
+  have hmulti : multiLineOKWith bl src sp.start.line sp.start.col = true := by
+    unfold multiLineOKWith
     rw [a4]
-    have h1 := length_le_byteLen line
-    have h2 := byteLen_le line
+    obtain ⟨h1, h2⟩ := hbl _ line a4
     have h3 := line_length_le src _ line a4
     exact multiCount_ok _ _ (by omega) (by omega)
   constructor
@@ -267,7 +277,7 @@ theorem render_safe (src : List Char) (sp : Span) (hsize : src.length < sizeBoun
     by_cases hl : sp.start.line = sp.stop.line
     · simp [hl, hsame hl]
     · simp [hl]
-  · unfold renderDiagOK
+  · unfold renderDiagOKWith
     split
     · rfl
     · rw [hlines, hpad]
@@ -277,10 +287,15 @@ theorem render_safe (src : List Char) (sp : Span) (hsize : src.length < sizeBoun
         · simp [hl, hc, hsame hl]
       · simp [hl, hmulti]
 
+theorem render_safe (src : List Char) (sp : Span) (hsize : src.length < sizeBound)
+    (hin : InText src sp) (hord : Ordered sp) :
+    renderErrOK src sp = true ∧ renderDiagOK src sp = true :=
+  render_safe_with (lineBytes src) src sp (byteLens_utf8 src) hsize hin hord
+
 theorem render_diag_whole_file (src : List Char) (sp : Span) (h : WholeFile sp) :
     renderDiagOK src sp = true := by
   obtain ⟨h1, h2⟩ := h
-  unfold renderDiagOK
+  unfold renderDiagOK renderDiagOKWith
   simp [h1, h2, Loc.zero]
 
 end HmsProofs.Lemmas.PosRender
